@@ -7,6 +7,7 @@ writer, lookup arms for free / invalid / out-of-table entries.
 import facts as F
 from cfg import CFG
 from flow import Flow, call_sites, arg_local, last_seg
+from inline import inlined
 from sym import PathSym, enum_paths, show, walk, strip, prefix_to, feasible
 
 XREF = "xref::XRef"
@@ -207,6 +208,9 @@ def rule_walk(ctx, f):
     ctx.rule("C02-G2", "the returned trailer dictionary is that of the first (newest) section only")
     readers = []
     for b in f.bodies.values():
+        if not call_sites(b, lambda n, t: last_seg(n) == "read_xref_and_trailer_at"):
+            continue
+        b = inlined(f, b)       # e.g. the /Prev look-up moved into a private helper
         cs = call_sites(b, lambda n, t: last_seg(n) == "read_xref_and_trailer_at")
         ms = call_sites(b, lambda n, t: last_seg(n) == "add_entries_from")
         if cs and ms:
